@@ -143,7 +143,8 @@ def coq_query(G, mets, dims):
     ms = "[" + "; ".join('{| vm_name := "%s"; vm_dims := [%s]; vm_metrics := [%s] |}' % (
         n, "; ".join('("%s", %s)' % (d, "true" if t else "false") for d, t in DIMS), "; ".join('"%s"' % x for x in METRICS)) for n in G["names"]) + "]"
     g = "[" + "; ".join('{| g_name := "%s"; g_pk := KStr "id"; g_rels := [%s] |}' % (n, "; ".join('R "%s" "%s"' % (t, ty) for t, ty in G["rels"][n])) for n in G["names"]) + "]"
-    gm = "[" + "; ".join('("%s", %s)' % (name, opt(sql.split(".")[0]) if sql and "." in sql else "None") for name, ty, sql in G["gm"]) + "]"
+    # the models a graph-level metric draws on: the model of its dotted sql; the ratio is over measures of the first model
+    gm = "[" + "; ".join('("%s", [%s])' % (name, ('"%s"' % sql.split(".")[0]) if sql and "." in sql else ('"%s"' % G["names"][0]) if ty == "ratio" else "") for name, ty, sql in G["gm"]) + "]"
     mrefs = "[" + "; ".join(('MQual "%s" "%s"' % tuple(m.split("."))) if "." in m else 'MBare "%s"' % m for m in mets) + "]"
     drefs = []
     for d in dims:
@@ -310,7 +311,7 @@ def try_defn(d):
                                       Dimension(name="t_" + d["dim"][:6], type="time", granularity="day", sql=["ts", "ts + INTERVAL 1 DAY", "ts::timestamp", "CAST(ts AS TIMESTAMP)", "ts - INTERVAL 2 HOUR"][(len(d["dim"]) + len(d["meas"])) % 5],
                                                 supported_granularities=d.get("sg_time"))],
                           # a second segment names the model's own DIMENSION (whose name is not a column of the source) instead of the raw column
-                          metrics=mets, segments=[Segment(name=d["seg"], sql="{model}.s0 = 'a'")] + ([Segment(name="zz_by_dim", sql="{model}.%s = 'a'" % d["dim"])] if d["dim"] not in COLS else []), **src))
+                          metrics=mets, segments=[Segment(name=d["seg"], sql="{model}.s0 = 'a'")] + ([Segment(name="zz_by_dim", sql="{model}.\"%s\" = 'a'" % d["dim"])] if d["dim"] not in COLS else []), **src))
     except Exception as e:
         return False, {"add_model": "%s: %s" % (type(e).__name__, str(e)[:100])}
     if d.get("graph_metric") == "after":
